@@ -94,6 +94,8 @@ def generate(run_seed, tier):
     nmodes = 1
     if multimodal:
         nmodes = c.choice([1, 2, 2, 3])
+        if c.random() < 0.04:
+            nmodes = c.randint(11, 13)     # solution10 sorts before solution2
     equal = c.random() < 0.4
     modes = []
     n0 = d.choice([2, 3, 5, 8, 13, d.randint(2, 60)])
@@ -105,6 +107,11 @@ def generate(run_seed, tier):
         fam = d.choice(WEIGHT_FAMILIES)
         w = gen_weights(d, n, fam)
         su = [[d.uniform(0.02, 0.98) for _ in fit] for _ in range(n)]
+        if d.random() < 0.12:
+            # a sharply peaked posterior: MAP, median and every sample agree
+            # to about 1e-6 (and are still distinct)
+            u0 = [d.uniform(0.1, 0.9) for _ in fit]
+            su = [[u + 1e-6 * d.uniform(-1, 1) for u in u0] for _ in range(n)]
         m2 = [d.uniform(10, 500) for _ in range(n)]
         modes.append({'family': fam, 'weights': w, 'samples_u': su,
                       'm2logl': m2})
@@ -388,7 +395,7 @@ def execute(case, keep_text=False, after_fit=None):
 
             nsol = len(truth)
             keys = sorted(k for k in sol if k.startswith('solution'))
-            if keys != ['solution%d' % i for i in range(nsol)]:
+            if keys != sorted('solution%d' % i for i in range(nsol)):
                 viol('solutions', 'count', 'sampler reported %d mode(s), solution '
                      'dictionary has %s' % (nsol, keys))
                 raise Stop()
